@@ -24,21 +24,20 @@ theorem ChanInv.init : ChanInv Sys.init := by
   · intro c hc
     simp [Sys.init] at hc
 
-/-- `finishCycle`, given that `kept`, `buf`, `buf2` account for everything the rings and the
-    drain buffers held -/
-theorem ChanInv.finishCycle {s : Sys} (h : ChanInv s) (kept : List (Nat × Ring Cmd)) (buf buf2 : List Cmd)
-    (hk : ∀ w, cycW w s.cyc s.rxs = ringsW w kept + wsum w buf + wsum w buf2) :
-    ChanInv (s.finishCycle kept buf buf2).1 := by
-  have f1 : (s.finishCycle kept buf buf2).1.cyc = none := rfl
-  have f2 : (s.finishCycle kept buf buf2).1.rxs = kept := rfl
-  have f3 : (s.finishCycle kept buf buf2).1.threads = s.threads := rfl
-  have f4 : (s.finishCycle kept buf buf2).1.deferred = if s.coll.hasReporter then commitsOf buf2 else [] := rfl
-  have f6 : (s.finishCycle kept buf buf2).1.carried = if s.coll.hasReporter then (s.cycleSplit buf buf2).2 else [] := rfl
-  have f5 : (s.finishCycle kept buf buf2).1.g =
-      if s.coll.hasReporter then
-        { s.g with consumed := s.cycleBatch buf buf2 ++ s.g.consumed,
-                   reported := (cycleProcess id s.coll (s.cycleBatch buf buf2)).2.getD [] ++ s.g.reported }
-      else { s.g with discarded := s.cycleBatch buf buf2 ++ (s.cycleSplit buf buf2).2 ++ buf2.filter Cmd.isCommit ++ s.g.discarded } := rfl
+/-- the state after processing, characterised by its fields: `kept`, `buf`, `buf2` account for
+    everything the rings and the drain buffers held plus the cancel commands `extra` that the
+    collector made up itself (from `PARKED_CANCELS`) -/
+theorem ChanInv.finishCycle_core {s S' : Sys} (h : ChanInv s) (kept : List (Nat × Ring Cmd)) (buf buf2 : List Cmd) (extra : List Nat)
+    (hk : ∀ w, cycW w s.cyc s.rxs + wsum w (extra.map Cmd.drop) = ringsW w kept + wsum w buf + wsum w buf2)
+    (f1 : S'.cyc = none) (f2 : S'.rxs = kept) (f3 : S'.threads = s.threads)
+    (f4 : S'.deferred = if s.coll.hasReporter then commitsOf buf2 else [])
+    (f6 : S'.carried = if s.coll.hasReporter then (s.cycleSplit buf buf2).2 else [])
+    (fa : S'.g.accepted = s.g.accepted) (fi : S'.g.injected = extra ++ s.g.injected)
+    (fl : S'.g.lostAtExit = s.g.lostAtExit)
+    (fc : S'.g.consumed = if s.coll.hasReporter then s.cycleBatch buf buf2 ++ s.g.consumed else s.g.consumed)
+    (fd : S'.g.discarded = if s.coll.hasReporter then s.g.discarded
+          else s.cycleBatch buf buf2 ++ (s.cycleSplit buf buf2).2 ++ buf2.filter Cmd.isCommit ++ s.g.discarded) :
+    ChanInv S' := by
   refine ⟨?_, ?_, ?_, ?_⟩
   · intro w hw
     have e := h.cons w hw
@@ -49,22 +48,43 @@ theorem ChanInv.finishCycle {s : Sys} (h : ChanInv s) (kept : List (Nat × Ring 
     have e3 := wsum_commits w buf2
     have e4 : wsum w (s.cycleBatch buf buf2) = wsum w (s.deferred.map Cmd.commit) + (wsum w s.carried + wsum w buf) + wsum w (s.cycleSplit buf buf2).1 := by
       simp only [Sys.cycleBatch, wsum_append]
-    show _ = cycW w (s.finishCycle kept buf buf2).1.cyc (s.finishCycle kept buf buf2).1.rxs
-      + pendW w (s.finishCycle kept buf buf2).1.threads + wsum w ((s.finishCycle kept buf buf2).1.deferred.map Cmd.commit)
-      + wsum w (s.finishCycle kept buf buf2).1.carried
-      + Ghost.out w (s.finishCycle kept buf buf2).1.g
-    rw [f1, f2, f3, f4, f5, f6]
-    have e' : wsum w s.g.accepted = cycW w s.cyc s.rxs + pendW w s.threads + wsum w (s.deferred.map Cmd.commit) + wsum w s.carried + Ghost.out w s.g := e
+    show _ = cycW w S'.cyc S'.rxs + pendW w S'.threads + wsum w (S'.deferred.map Cmd.commit) + wsum w S'.carried
+      + (wsum w S'.g.consumed + wsum w S'.g.discarded + wsum w S'.g.lostAtExit)
+    rw [f1, f2, f3, f4, f6, fa, fi, fl, fc, fd]
+    have e' : wsum w s.g.accepted + wsum w (s.g.injected.map Cmd.drop)
+        = cycW w s.cyc s.rxs + pendW w s.threads + wsum w (s.deferred.map Cmd.commit) + wsum w s.carried
+          + (wsum w s.g.consumed + wsum w s.g.discarded + wsum w s.g.lostAtExit) := e
     cases hr : s.coll.hasReporter <;>
-      simp only [if_true, Bool.false_eq_true, if_false, Ghost.out, wsum_append, wsum_nil, List.map_nil] at e' ⊢ <;>
+      simp only [if_true, Bool.false_eq_true, if_false, wsum_append, wsum_nil, List.map_nil, List.map_append] at e' ⊢ <;>
       (have : cycW w none kept = ringsW w kept := rfl) <;>
       omega
   · rw [f3]; exact h.sig
   · intro cs hcs
     rw [f1] at hcs
     cases hcs
-  · rw [f5]
-    split <;> exact h.lost
+  · rw [fl]; exact h.lost
+
+theorem ChanInv.finishCycle {s : Sys} (h : ChanInv s) (kept : List (Nat × Ring Cmd)) (buf buf2 : List Cmd)
+    (hk : ∀ w, cycW w s.cyc s.rxs = ringsW w kept + wsum w buf + wsum w buf2) :
+    ChanInv (s.finishCycle kept buf buf2).1 := by
+  refine h.finishCycle_core kept buf buf2 [] (fun w => by rw [hk w]; simp) rfl rfl rfl rfl rfl ?_ ?_ ?_ ?_ ?_ <;>
+    (unfold Sys.finishCycle; dsimp only [Sys.withG]; cases s.coll.hasReporter <;> rfl)
+
+/-- processing with the cancel commands derived from `PARKED_CANCELS` -/
+theorem ChanInv.finishCycleP {s : Sys} (h : ChanInv s) (kept : List (Nat × Ring Cmd)) (buf buf2 : List Cmd)
+    (hk : ∀ w, cycW w s.cyc s.rxs = ringsW w kept + wsum w buf + wsum w buf2) :
+    ChanInv (s.finishCycleP kept buf buf2).1 := by
+  unfold Sys.finishCycleP
+  cases hr : s.coll.hasReporter with
+  | false =>
+    simp only [Bool.false_eq_true, if_false]
+    exact h.finishCycle kept buf buf2 hk
+  | true =>
+    simp only [if_true]
+    refine h.finishCycle_core kept buf (buf2 ++ (takeParked (s.deferred ++ commitsOf buf) s.parkedCancels).1.map Cmd.drop)
+      (takeParked (s.deferred ++ commitsOf buf) s.parkedCancels).1
+      (fun w => by rw [wsum_append]; have := hk w; omega) rfl rfl rfl ?_ ?_ ?_ ?_ ?_ ?_ ?_ <;>
+      simp only [Sys.finishCycle, Sys.withG, hr, if_true]
 
 theorem ChanInv.withCyc {s : Sys} (h : ChanInv s) (cs' : CycState)
     (hw : ∀ w, cycW w (some cs') s.rxs = cycW w s.cyc s.rxs)
@@ -74,7 +94,7 @@ theorem ChanInv.withCyc {s : Sys} (h : ChanInv s) (cs' : CycState)
     have e := h.cons w hadd
     have e1 := hw w
     unfold Sys.flow at e
-    show wsum w s.g.accepted = cycW w (some cs') s.rxs + pendW w s.threads + wsum w (s.deferred.map Cmd.commit) + wsum w s.carried + Ghost.out w s.g
+    show wsum w s.g.accepted + wsum w (s.g.injected.map Cmd.drop) = cycW w (some cs') s.rxs + pendW w s.threads + wsum w (s.deferred.map Cmd.commit) + wsum w s.carried + Ghost.out w s.g
     omega
   · intro cs hcs hp
     simp only [Option.some.injEq] at hcs
@@ -129,7 +149,7 @@ theorem ChanInv.cycStep {s : Sys} (h : ChanInv s) : ChanInv s.cycStep.1 := by
     · -- atReport: processing + report
       rename_i hph
       have ht := hwf (.inr hph)
-      refine h.finishCycle cs.kept cs.buf cs.buf2 (fun w => ?_)
+      refine h.finishCycleP cs.kept cs.buf cs.buf2 (fun w => ?_)
       rw [cw w, ht]; simp
     · -- atRx2
       rename_i hph
@@ -212,7 +232,7 @@ theorem ChanInv.cycStep {s : Sys} (h : ChanInv s) : ChanInv s.cycStep.1 := by
 theorem ChanInv.cycle {s : Sys} (h : ChanInv s) (hc : s.cyc = none) : ChanInv s.cycle.1 := by
   unfold Sys.cycle
   have h' := h.withG_side { s.g with drainedBy := (drainAllTagged s.rxs).reverse ++ s.g.drainedBy } rfl rfl rfl rfl
-  refine h'.finishCycle (drainAll s.rxs).1 (drainAll s.rxs).2 [] (fun w => ?_)
+  refine h'.finishCycleP (drainAll s.rxs).1 (drainAll s.rxs).2 [] (fun w => ?_)
   show cycW w s.cyc s.rxs = _
   rw [hc]
   have := drainAll_w w s.rxs
